@@ -1,0 +1,25 @@
+// Copyright 2020-2025 Buf Technologies, Inc.
+//
+// Licensed under the Apache License, Version 2.0 (the "License");
+// you may not use this file except in compliance with the License.
+// You may obtain a copy of the License at
+//
+//      http://www.apache.org/licenses/LICENSE-2.0
+//
+// Unless required by applicable law or agreed to in writing, software
+// distributed under the License is distributed on an "AS IS" BASIS,
+// WITHOUT WARRANTIES OR CONDITIONS OF ANY KIND, either express or implied.
+// See the License for the specific language governing permissions and
+// limitations under the License.
+
+//go:build verif
+
+package app
+
+// Contracts for the gocv verifier (see /verif/DESIGN.md), author ca-W. Comment-only.
+//
+// C19 (.netrc location): the home directory is $HOME (unix build), its absence is an error.
+//@ pure func HomeDirPath(envContainer) (r, err)
+//@   property C19
+//@   ensures home: envContainer.Env("HOME") != "" ==> r == envContainer.Env("HOME") && err == nil
+//@   ensures unset-is-an-error: envContainer.Env("HOME") == "" ==> r == "" && err != nil
